@@ -331,6 +331,12 @@ macro_rules! prims {
         ) -> impl Parser<'a, I<'a>, Tr, X<'a>> + Clone {
             a.repeated().collect_exactly::<[Tr; 2]>().map(|v: [Tr; 2]| Tr::list(&v))
         }
+        pub fn collect_ex2b<'a>(
+            a: impl Parser<'a, I<'a>, Tr, X<'a>> + Clone,
+            hi: usize,
+        ) -> impl Parser<'a, I<'a>, Tr, X<'a>> + Clone {
+            a.repeated().at_most(hi).collect_exactly::<[Tr; 2]>().map(|v: [Tr; 2]| Tr::list(&v))
+        }
         pub fn enum_<'a>(
             a: impl Parser<'a, I<'a>, Tr, X<'a>> + Clone,
             lo: usize,
